@@ -81,7 +81,9 @@ META = {
          '(quick) / 2.3M + liveness (thorough); the legacy nil-log design is rejected. Harness: pairwise enumeration of every hook point of Publish / send loop / Subscribe incl. '
          'replay / tear-down / unsubscribe against {Close, double Close, cancel, Publish, Subscribe}, bare and behind 1-2 MessageTransform decorators, unread channels, 2 concurrent '
          'closers; every run ends with Close, post-Close probes, a check that all output channels were closed at the instant Close returned (hook observers) and a goroutine-leak '
-         'check by pprof labels; the thorough tier builds with -race',
+         'check by pprof labels; the thorough tier builds with -race. The decorator itself is modelled at the grain of its goroutines (SubDecorator.tla) and validated by internal '
+         'traces of random concurrent runs (a cancelled subscription has to close its output channel on its own, before Close is made) and of TLC-generated gate schedules; a '
+         'Subscribe that returns a channel after Close has returned must return a closed one',
     design_ref='DESIGN.md 6/C07', note="The abstract oracle (GoChannelAbs.tla) constrains only API-observable events; linearization points are searched by TLC (volatile mode) or taken eagerly where their order is provably immaterial (persistent mode). Bounded: design model 2 publishers x 2 subscriptions x 2 messages; harness programs up to 14 subscriptions. A crash of the process inside the code under test (fatal error / unrecovered panic) is reported as a violation.", technique='TLC model checking of Close/cancel interleavings + pairwise hook-point fault enumeration with trace validation'),
  'C11': dict(
     text='Persistent configuration of the design model: OneSenderPerPair and terminal completeness for all interleavings of 2 publishers and a late subscription; the '
